@@ -679,3 +679,120 @@ def replay_file(ctx, path):
         ctx.violation("replay", "%s: %s" % (why[0], why[1]), dict(case, impl=io))
     elif d is not None:
         ctx.violation("replay-mismatch", "model and implementation differ at line %d" % d, dict(case, impl=io), no_input=True)
+
+
+# ---------------------------------------------------------------- micro-step tier (C01): Feb/Micro.v replayed on the real code
+MICRO_OPS = ["readFE", "readFE_nb", "readFF", "readFF_nb", "readXX", "writeEF", "writeEF_nb", "writeF", "writeFF", "fill", "empty",
+             "purge_to", "status"]
+_MICRO_RE = None
+
+
+def micro_parse(line):
+    import re
+    m = re.match(r"A=(\S+):(\S+) B=(\S+):(\S+) status=(\d) word=(-?\d+) paused=(\d)(?: stuck=(\d))?(?: contended=(\d))?", line)
+    if not m:
+        return None
+
+    def rr(c, v):
+        return None if c == "BLK" else (int(c), None if v == "-" else int(v))
+    return {"out": (rr(m.group(1), m.group(2)), rr(m.group(3), m.group(4)), (int(m.group(5)), int(m.group(6)))),
+            "paused": int(m.group(7)), "stuck": int(m.group(8) or 0), "contended": int(m.group(9) or 0)}
+
+
+def micro_explain(init, opa, va, opb, vb, out):
+    """is (resA, resB, (full, word)) what the two atomic cell operations give in one of the two orders?  A call that has to
+    wait is retried after the other one; one that still has to wait stays blocked (None)."""
+    c0 = (0, 5) if init == "empty" else (1, 5)
+
+    def app(c, name, v):
+        kind, src, dm, nb = canon(name, 0, v)
+        r = atomic(c, kind, src)
+        if r is None:
+            return (c, (OPFAIL, None)) if nb else None
+        c1, got = r
+        return c1, (0, expect_val(kind, 0 if kind in ("readFE", "readFF", "readXX") else 1, got))
+
+    def seq(first, second):
+        r1 = app(c0, *first)
+        if r1 is not None:
+            c1, x = r1
+            r2 = app(c1, *second)
+            return (x, r2[1], r2[0]) if r2 else (x, None, c1)
+        r2 = app(c0, *second)
+        if r2 is None:
+            return (None, None, c0)
+        c1, y = r2
+        r1 = app(c1, *first)
+        return (r1[1], y, r1[0]) if r1 else (None, y, c1)
+    a, b = (opa, va), (opb, vb)
+    x = seq(a, b)
+    y = seq(b, a)
+    cands = [(x[0], x[1], x[2]), (y[1], y[0], y[2])]
+    return out in cands, cands
+
+
+def micro_probes(ctx, drv, quick):
+    """(init, held op, value, k, other op, value): the schedules of the triples that were non-atomic before /repo eba51ae
+    (from the old-order model), plus a sample (quick) or all (thorough) of the 338 triples with the hold after the 1st / 2nd
+    stripe unlock of the first call"""
+    import re
+    rc, out, err = core.sh([drv, "--old"], timeout=300)
+    probes = []
+    for l in out.splitlines():
+        m = re.match(r"BAD init=(\w+) A=(\w+) B=(\w+) .*schedule=(\d+)", l)
+        if m:
+            init, a, b, sched = m.groups()
+            probes.append((init, a, 11, 1, b, 22) if sched[0] == "0" else (init, b, 22, 1, a, 11))
+    nformer = len(probes)
+    allp = [(i, a, 11, k, b, 22) for i in ("absent", "empty") for a in MICRO_OPS for b in MICRO_OPS for k in (1, 2)]
+    if quick:
+        allp = ctx.rng.shuffle(allp)[:80]
+    probes += [p for p in allp if p not in probes]
+    rc, out, err = core.sh([drv], timeout=300)
+    cur = [l for l in out.splitlines() if l.startswith("BAD")]
+    return probes, nformer, cur
+
+
+def run_micro(ctx, quick, verbose=False):
+    drv = ctx.model_driver("c01micro_driver")
+    exe = ctx.link("c01_micro", ["c01_micro.c"], exclude=["feb.c"])
+    probes, nformer, cur_bad = micro_probes(ctx, drv, quick)
+    rc, mout, merr = core.run_lines(drv, ["h %s %s %d %d %s %d" % p for p in probes], timeout=300, args=["--held"])
+    model = [micro_parse(l) for l in mout]
+    if len(model) != len(probes) or None in model:
+        raise core.BuildError("micro model driver failed: " + "\n".join(mout[-3:]) + merr[-300:])
+    lines = ["m %s %s %d %d %s %d %d" % (p + (m["contended"],)) for p, m in zip(probes, model)]
+    rc, iout, ierr = core.run_lines(exe, lines, timeout=600, env=core.qenv(3, 1, stack=65536))
+    real = [micro_parse(l) for l in iout if l.startswith("A=")]
+    rejects, mismatches, ncont = [], [], 0
+    if len(real) != len(probes):
+        mismatches.append({"what": "micro harness stopped after %d of %d probes (rc=%s) %s" % (len(real), len(probes), rc, (iout[-1:] or [""])[0]),
+                           "probe": probes[len(real)] if len(real) < len(probes) else None})
+    for p, m, r in zip(probes, model, real):
+        init, a, va, k, b, vb = p
+        case = {"config": [3, 1], "schedule": "%s(%d) on a word that is %s runs up to its %d. qt_hash_unlock; %s(%d) runs; the first call is released"
+                % (a, va, "empty" if init == "empty" else "full (no record)", k, b, vb),
+                "probe": list(p), "real": r["out"], "model": m["out"]}
+        ok, cands = micro_explain(init, a, va, b, vb, r["out"])
+        ncont += m["contended"]
+        if r["stuck"]:
+            rejects.append(("a task neither returned nor blocked within 5 s", dict(case, orders=cands)))
+        elif not ok:
+            rejects.append(("results %s, (full, value) %s are not those of the two calls in either order %s"
+                            % (r["out"][:2], r["out"][2], cands), dict(case, orders=cands)))
+        if not m["contended"] and (r["out"] != m["out"] or r["paused"] != m["paused"]):
+            mismatches.append(case)
+        if verbose:
+            print("%-6s %-11s k=%d | %-11s | real %s | model %s%s%s" % (init, a, k, b, r["out"], m["out"], "" if ok else "  NOT LINEARISABLE",
+                                                                          "  (contended)" if m["contended"] else ""))
+    ctx.cov["micro"] = {"probes": len(probes), "former_nonatomic_triples": nformer, "contended": ncont,
+                        "model_bad_triples_current_code": len(cur_bad), "mismatches": len(mismatches), "nonlinearisable": len(rejects)}
+    ctx.cov["evaluations"] = ctx.cov.get("evaluations", 0) + len(probes)
+    if cur_bad:
+        mismatches.append({"what": "the micro-step model of the current code has non-atomic triples", "lines": cur_bad[:3]})
+    if rejects:
+        why, case = rejects[0]
+        ctx.violation("micro:" + case["schedule"][:40], "C01 micro-step: " + case["schedule"] + ": " + why, dict(case, reason=why))
+    elif mismatches:
+        ctx.violation("broken", "micro-step correspondence Feb.Micro / implementation broken in %d probe(s)" % len(mismatches),
+                      {"theorem_or_correspondence": "impl != Feb.Micro (held schedule)", "first_mismatch": mismatches[0]}, no_input=True)
